@@ -11,7 +11,7 @@ VAR_POOLS = {
     "fresh": {"S": "S", "A": "a#CNF#", "B": "C#CNF#1", "C": "b#CNF#"},      # look like the CNF helper variables
     "alg": {"S": "S", "A": "#STARTUNION#", "B": "S#SUBS#0", "C": "#STARTSTAR#"},
     "int": {"S": "S", "A": 10, "B": 11, "C": 12},      # disjoint from the int terminals 0,1,2
-    "clash": {"S": "S", "A": "a", "B": "b", "C": "c"},        # same values as the terminals (only used for to_pda)
+    "clash": {"S": "S", "A": "a", "B": "b", "C": "c"},        # same values as the terminals
     "subs_lo": {"S": "S", "A": "S#SUBS#0", "B": "S#SUBS#1", "C": "S#SUBS#2"},   # look like substitute's fresh variables
     "subs_hi": {"S": "S", "A": "S#SUBS#3", "B": "S#SUBS#2", "C": "A#SUBS#1"},
     "int0": {"S": "S", "A": 0, "B": 1, "C": 2},
